@@ -48,6 +48,7 @@ class Report(object):
         self.analysed_units = set()
         self.floors = []  # (name, observed, floor)
         self.notes = []
+        self.errors = []  # analysis errors that do not stop the remaining rules (reported as exit 2 unless a violation is found)
         self.extra = {}
         self.t0 = time.time()
         self._keys = set()
@@ -90,6 +91,9 @@ class Report(object):
 
     def note(self, s):
         self.notes.append(s)
+
+    def error(self, msg):
+        self.errors.append(msg)
 
 
 def load_known():
@@ -198,6 +202,10 @@ def finish(report, explanation, assumptions, rule_text, level='other', extra_cov
         print('VIOLATION property=%s replay=%s' % (pid, p))
     if violations:
         return 1
+    if report.errors:
+        for m in report.errors:
+            print('ANALYSIS-ERROR property=%s %s' % (pid, m))
+        return 2
     low = [(n, o, fl) for (n, o, fl) in report.floors if o < fl]
     if low:
         # no violation found, but a rule matched fewer sites than confirmed by hand: it would pass vacuously
